@@ -665,9 +665,11 @@ fn shake_1(expression: Expression) -> Expression {
                             .expect("could not get expression"),
                     )
                 } else {
+                    // NOTE: An and-group marks the blocks as merged, the parser only ever puts an
+                    // or-group under a match, and the solver solves the two differently on arrays
                     shake_1(Expression::Match(
                         Match::All,
-                        Box::new(Expression::BooleanGroup(BoolSym::Or, expressions)),
+                        Box::new(Expression::BooleanGroup(BoolSym::And, expressions)),
                     ))
                 };
                 scratch.push(Expression::Nested(field, Box::new(shaken)));
